@@ -6,19 +6,31 @@ both parsers are online, so every extension of such a prefix is rejected by both
 from ..model import refparse, reflex
 from . import real as realmod
 
+import copy
+
+from . import runner as _runner, snapshot as _snapshot
+
 _real = None
+_template = None
 
 
 def get_real():
-    global _real
+    """The task's parser: a deep copy of a pristine, never-used SqParser (30 ms), made once per
+    task so that no task depends on the calls made by the task that ran before it."""
+    global _real, _template
     if _real is None:
-        _real = realmod.Real()
+        if _template is None:
+            _template = _snapshot.api().new_parser()
+        _real = realmod.Real(copy.deepcopy(_template))
     return _real
 
 
 def reset_real():
     global _real
     _real = None
+
+
+_runner.TASK_INIT.append(reset_real)
 
 
 class Verdict:
